@@ -30,3 +30,34 @@ Definition text_case (a b : ltable) (same_text : bool) : bool := json_text_ok (a
 
 Definition pandas_case (t : ltable) (frame : list (string * list pcell)) (series : list (string * list pcell)) : bool :=
   pandas_ok (abs t) frame && forallb (fun '(n, ser) => pandas_series_ok (abs t) n ser) series.
+
+(* ====================================================================
+   Tables that may hold SeriesColumns (object graph: Model/XTable.v, kernel-free) and the family bookkeeping *)
+From DM Require Export Model.XTable.
+
+Definition xpair_ok (p : xtable * xtable) : bool :=
+  let '(o, r) := p in
+  implb (xinv_b o) (xinv_b r) && xrestored_like (xabs o) (xabs r).
+
+Definition xpickle_case (used : list nat) (orig rest : xtable) (follow : list (xtable * xtable)) : bool :=
+  xpair_ok (orig, rest) && fresh_fam used (xs_table (xabs rest))
+  && forallb xpair_ok follow
+  && forallb (fun p => negb (mem_nat (x_fam (snd p)) used)) follow.
+
+(* relatedness is preserved: two tables of the original side are of one family exactly when their counterparts on
+   the restored side are.  `used`: families alive before the case began (each its own counterpart, except the
+   family of the original, whose counterpart is the restored table); `roots`: the families handed out afterwards to
+   constructed / restored / from_json tables, in order: pairwise different and not in use before *)
+Definition rel_iso (l : list (nat * nat)) : bool :=
+  forallb (fun p => forallb (fun q => Bool.eqb (Nat.eqb (fst p) (fst q)) (Nat.eqb (snd p) (snd q))) l) l.
+Definition fams_case (used roots : list nat) (root : nat * nat) (pairs : list (nat * nat)) : bool :=
+  fresh_roots used roots
+  && rel_iso (map (fun u => (u, u)) (filter (fun u => negb (Nat.eqb u (fst root))) used) ++ root :: pairs).
+Definition xfams (l : list (xtable * xtable)) : list (nat * nat) := map (fun p => (x_fam (fst p), x_fam (snd p))) l.
+
+Definition xjson_case (used : list nat) (orig rest : xtable) : bool :=
+  implb (xinv_b orig) (xinv_b rest) && xjson_image_ok (xabs orig) (xabs rest) && fresh_fam used (xs_table (xabs rest)).
+Definition xtext_case (a b : xtable) (same_text : bool) : bool := xjson_text_ok (xabs a) (xabs b) same_text.
+
+Definition xpandas_case (t : xtable) (frame : list (string * list xpcell)) (series : list (string * list xpcell)) : bool :=
+  xpandas_ok (xabs t) frame && forallb (fun '(n, ser) => xpandas_series_ok (xabs t) n ser) series.
